@@ -11,14 +11,19 @@
 package credgen
 
 import (
+	"bytes"
 	"context"
+	"encoding/hex"
 	"encoding/json"
 	"fmt"
+	"io"
 	"math"
 	"math/big"
+	"net/http"
 	"reflect"
 	"sort"
 	"strings"
+	"sync"
 	"time"
 
 	core "github.com/iden3/go-iden3-core/v2"
@@ -29,6 +34,7 @@ import (
 
 	"vharness/coqgen"
 	"vharness/ctxload"
+	"vharness/hashers"
 )
 
 const (
@@ -159,7 +165,104 @@ func (s *Schema) BuildDoc() []byte {
 type Env struct {
 	Loader *ctxload.Loader
 	Space  string // path segment of generated schema URLs (distinct environments use distinct URL spaces)
-	n      int
+	// Mode selects how MerklizeOpts lets the merklizer find documents: "" = WithDocumentLoader(Loader);
+	// "ipfs-client" = WithIPFSClient(stub) only; "ipfs-gateway" = WithIPFSGateway(GatewayURL) only
+	// (the stub HTTP transport must be installed: InstallGateway).  In the IPFS modes only ipfs://
+	// context URLs resolve (Spec.CtxIPFS).
+	Mode string
+	ipfs *ipfsState
+	n    int
+}
+
+// GatewayURL is the IPFS gateway served by the stub HTTP transport.
+const GatewayURL = "http://ipfs-gateway.test"
+
+type ipfsState struct {
+	mu    sync.RWMutex
+	paths map[string]string // ipfs path (the URL without "ipfs://") -> the URL whose document it serves
+}
+
+// IPFSURL is the ipfs:// address under which the document of url is published.
+func IPFSURL(url string) string {
+	h := Keccak256([]byte(url))
+	return "ipfs://Qm" + hex.EncodeToString(h[:22])
+}
+
+// ServeIPFS publishes the documents of the given URLs (as the loader has them) on the stub IPFS.
+func (e *Env) ServeIPFS(urls ...string) {
+	e.ipfs.mu.Lock()
+	defer e.ipfs.mu.Unlock()
+	for _, u := range urls {
+		e.ipfs.paths[strings.TrimPrefix(IPFSURL(u), "ipfs://")] = u
+	}
+}
+
+func (e *Env) ipfsDoc(path string) ([]byte, bool) {
+	e.ipfs.mu.RLock()
+	u, ok := e.ipfs.paths[strings.Trim(path, "/")]
+	e.ipfs.mu.RUnlock()
+	if !ok {
+		return nil, false
+	}
+	b := e.Loader.Raw(u)
+	return b, b != nil
+}
+
+// WithMode: the same documents, reached another way.
+func (e *Env) WithMode(mode string) *Env {
+	c := *e
+	c.Mode = mode
+	return &c
+}
+
+// stub IPFS node (loaders.IPFSClient)
+type ipfsClient struct{ e *Env }
+
+func (c ipfsClient) Cat(url string) (io.ReadCloser, error) {
+	b, ok := c.e.ipfsDoc(url)
+	if !ok {
+		return nil, fmt.Errorf("stub ipfs: no such object %s", url)
+	}
+	return io.NopCloser(bytes.NewReader(b)), nil
+}
+
+// stub HTTP transport: the gateway, and nothing else
+type gatewayTransport struct{ e *Env }
+
+func (t gatewayTransport) RoundTrip(r *http.Request) (*http.Response, error) {
+	const pfx = "/ipfs/"
+	if r.URL.Scheme+"://"+r.URL.Host != GatewayURL || !strings.HasPrefix(r.URL.Path, pfx) {
+		return nil, fmt.Errorf("stub transport: no network (%s)", r.URL)
+	}
+	b, ok := t.e.ipfsDoc(r.URL.Path[len(pfx):])
+	if !ok {
+		return &http.Response{StatusCode: 404, Body: io.NopCloser(bytes.NewReader(nil)), Header: http.Header{}, Request: r}, nil
+	}
+	h := http.Header{}
+	h.Set("Content-Type", "application/ld+json")
+	return &http.Response{StatusCode: 200, Body: io.NopCloser(bytes.NewReader(b)), Header: h, Request: r}, nil
+}
+
+// InstallGateway makes http.DefaultClient (which the repository's loader uses for a gateway) talk to
+// the stub only.  Process-wide: for driver processes.
+func InstallGateway(e *Env) { http.DefaultClient = &http.Client{Transport: gatewayTransport{e}} }
+
+// viewLoader resolves documents for the harness's own view of a credential, whatever the mode.
+type viewLoader struct{ e *Env }
+
+func (l viewLoader) LoadDocument(u string) (*ld.RemoteDocument, error) {
+	if strings.HasPrefix(u, "ipfs://") {
+		b, ok := l.e.ipfsDoc(u[len("ipfs://"):])
+		if !ok {
+			return nil, ld.NewJsonLdError(ld.LoadingDocumentFailed, fmt.Errorf("stub ipfs: no such object %s", u))
+		}
+		var v any
+		if err := json.Unmarshal(b, &v); err != nil {
+			return nil, ld.NewJsonLdError(ld.LoadingDocumentFailed, err)
+		}
+		return &ld.RemoteDocument{DocumentURL: u, Document: v}, nil
+	}
+	return l.e.Loader.LoadDocument(u)
 }
 
 // A context that only declares prefixes / a vocabulary: schemas whose type @id is written as
@@ -179,7 +282,7 @@ var (
 func PrefixCtxInner() map[string]any { return prefixCtxInner }
 
 func newEnv(space string) *Env {
-	e := &Env{Loader: ctxload.New(), Space: space}
+	e := &Env{Loader: ctxload.New(), Space: space, ipfs: &ipfsState{paths: map[string]string{}}}
 	for u, inner := range map[string]any{URLPrefixCtx: prefixCtxInner, URLNoiseCtx: noiseCtxInner} {
 		b, _ := json.Marshal(map[string]any{"@context": inner})
 		if err := e.Loader.Add(u, b); err != nil {
@@ -196,7 +299,28 @@ func NewEnvIn(space string) *Env { return newEnv(space) }
 
 // MerklizeOpts are the options every call must carry to stay offline.
 func (e *Env) MerklizeOpts() []merklize.MerklizeOption {
+	switch e.Mode {
+	case "ipfs-client":
+		return []merklize.MerklizeOption{merklize.WithIPFSClient(ipfsClient{e})}
+	case "ipfs-gateway":
+		return []merklize.MerklizeOption{merklize.WithIPFSGateway(GatewayURL)}
+	}
 	return []merklize.MerklizeOption{merklize.WithDocumentLoader(e.Loader)}
+}
+
+// SaltedHasher: a custom hasher (Poseidon with salts) for options that carry merklize.WithHasher.
+func SaltedHasher() merklize.Hasher {
+	q, _ := new(big.Int).SetString("21888242871839275222246405745257275088548364400416034343698204186575808495617", 10)
+	return hashers.Mod{P: q, SaltBytes: []byte("salt"), SaltElem: big.NewInt(7), Name: "salted"}
+}
+
+// MerklizeOptsFor: the merklizer options an options value carries.
+func (e *Env) MerklizeOptsFor(o Opts) []merklize.MerklizeOption {
+	m := e.MerklizeOpts()
+	if o.Salted {
+		m = append(m, merklize.WithHasher(SaltedHasher()))
+	}
+	return m
 }
 
 // Register builds the document of s and serves it at s.URL.
@@ -262,6 +386,7 @@ type Spec struct {
 	TopTypes      []string  `json:"top_types,omitempty"`      // override of the top-level "type" array
 	Values        [5]string `json:"values"`                   // price, count, name, insured, since ("" = default)
 	ExtraCtx      []string  `json:"extra_ctx,omitempty"`      // more context URLs
+	CtxIPFS       bool      `json:"ctx_ipfs,omitempty"`       // every @context URL is written as the ipfs:// address of the same document
 	PreCtx        []string  `json:"pre_ctx,omitempty"`        // context URLs listed BEFORE the schema's (after credentials/v1)
 	Override      *Schema   `json:"override,omitempty"`       // a context listed right AFTER the schema's that redefines the type (same name and IRI, other attribute)
 	Poison        string    `json:"poison,omitempty"`         // a Go value json.Marshal rejects, put into CredentialSubject after decoding: nan | inf | chan | func | marshaler
@@ -336,6 +461,11 @@ func Build(sp Spec) (*Cred, error) {
 		ctxs = append(ctxs, sp.Override.URL)
 	}
 	ctxs = append(ctxs, sp.ExtraCtx...)
+	if sp.CtxIPFS {
+		for i := range ctxs {
+			ctxs[i] = IPFSURL(ctxs[i])
+		}
+	}
 	doc := map[string]any{
 		"@context":          ctxs,
 		"id":                "urn:uuid:8a2a7b06-3c7f-4e0b-9d52-5b6f9c0d1e2f",
@@ -622,7 +752,10 @@ func (e *Env) ViewOfWith(vc *verifiable.W3CCredential, paths []string, mzOpts []
 			ctxs[i] = vc.Context[i]
 		}
 	}
-	ldCtx, err := ld.NewContext(nil, o.JSONLDOptions()).Parse(ctxs)
+	// the harness's own JSON-LD options (not the merklizer's): same documents, the environment's loader
+	jo := ld.NewJsonLdOptions("")
+	jo.DocumentLoader = viewLoader{e}
+	ldCtx, err := ld.NewContext(nil, jo).Parse(ctxs)
 	if err == nil {
 		v.Terms, v.CtxOK = TermsOf(ldCtx)
 		if !v.CtxOK {
@@ -780,6 +913,7 @@ type Opts struct {
 	Root     string `json:"root_pos"`
 	Upd      bool   `json:"updatable"`
 	Loader   int    `json:"loader,omitempty"` // which document loader the MerklizerOpts carry (drivers with several loaders)
+	Salted   bool   `json:"salted,omitempty"` // the MerklizerOpts also carry WithHasher(SaltedHasher())
 }
 
 func (o Opts) Coq(f *coqgen.File) string {
@@ -789,7 +923,7 @@ func (o Opts) Coq(f *coqgen.File) string {
 
 func (e *Env) Real(o Opts) *verifiable.CoreClaimOptions {
 	return &verifiable.CoreClaimOptions{RevNonce: o.RevNonce, Version: o.Version, SubjectPosition: o.Subject,
-		MerklizedRootPosition: o.Root, Updatable: o.Upd, MerklizerOpts: e.MerklizeOpts()}
+		MerklizedRootPosition: o.Root, Updatable: o.Upd, MerklizerOpts: e.MerklizeOptsFor(o)}
 }
 
 func FromReal(o *verifiable.CoreClaimOptions) Opts {
